@@ -205,9 +205,9 @@ Lemma walk_prune excl t : walk excl t = filter (not_excluded excl) (walk [] t).
 Proof. apply walk_prune_both. Qed.
 
 (* whatever lies below an excluded name has no influence on the file group *)
-Lemma excluded_no_part excl sfx t1 t2 :
+Lemma excluded_no_part fixed excl sfx t1 t2 :
   filter (not_excluded excl) (walk [] t1) = filter (not_excluded excl) (walk [] t2) ->
-  group_init excl sfx t1 = group_init excl sfx t2.
+  group_init fixed excl sfx t1 = group_init fixed excl sfx t2.
 Proof.
   intros H. unfold group_init, get_file_list. rewrite (walk_prune excl t1), (walk_prune excl t2), H. reflexivity.
 Qed.
@@ -564,10 +564,10 @@ Definition code_merged (sc : list bfile) (f : bfile) : option jdict :=
 
 Lemma data_sidecar_value sc conts f :
   conts_ok sc conts -> unique_paths sc ->
-  data_sidecar sc conts f = Ok (code_merged sc f).
+  data_sidecar false sc conts f = Ok (code_merged sc f).
 Proof.
   intros Hc Hu. unfold data_sidecar, code_merged. fold (chain sc f).
-  destruct (chain sc f) as [|x l] eqn:E; cbn [is_empty]; [reflexivity|].
+  destruct (chain sc f) as [|x l] eqn:E; cbn [is_empty]; cbv iota; [reflexivity|].
   assert (Hin : In (last (x :: l) f) (chain sc f)) by (rewrite E; apply last_in; discriminate).
   apply chain_sound in Hin as (Hin & _).
   rewrite (lookup_contents_ok (fun s => merge_dicts (map raw_of (own_chain sc s))) _ sc conts Hc).
@@ -672,10 +672,10 @@ Lemma set_contents_ok sc s d :
   set_contents s (get_sidecars_from_path sc s) = Ok d -> d = merge_dicts (map raw_of (own_chain sc s)).
 Proof. unfold set_contents, own_chain, chain. apply load_sidecar_files_ok. Qed.
 
-Lemma group_init_spec excl sfx t g :
-  group_init excl sfx t = Ok g ->
+Lemma group_init_spec fixed excl sfx t g :
+  group_init fixed excl sfx t = Ok g ->
   conts_ok (g_sidecars g) (g_conts g) /\
-  Forall (fun fm => data_sidecar (g_sidecars g) (g_conts g) (fst fm) = Ok (snd fm)) (g_data g).
+  Forall (fun fm => data_sidecar fixed (g_sidecars g) (g_conts g) (fst fm) = Ok (snd fm)) (g_data g).
 Proof.
   unfold group_init. intros H.
   destruct (mapM _ (get_file_list excl sfx ext_json t)) as [sc|e] eqn:E1; cbn [bind] in H; [|discriminate].
@@ -689,16 +689,16 @@ Proof.
     inversion Hy; subst y. rewrite (set_contents_ok sc s d Es). reflexivity.
   - apply mapM_Forall2 in E4. eapply Forall2_right; [exact E4|].
     cbn beta. intros f y Hy.
-    destruct (data_sidecar sc conts f) as [m|e] eqn:Ed; cbn [bind] in Hy; [|discriminate].
+    destruct (data_sidecar fixed sc conts f) as [m|e] eqn:Ed; cbn [bind] in Hy; [|discriminate].
     inversion Hy; subst y. exact Ed.
 Qed.
 
-(* every data file of a constructed group carries [code_merged] *)
+(* BEFORE THE FIX: every data file of a constructed group carries [code_merged] *)
 Lemma group_data_merged excl sfx t g f m :
-  group_init excl sfx t = Ok g -> unique_paths (g_sidecars g) -> In (f, m) (g_data g) ->
+  group_init false excl sfx t = Ok g -> unique_paths (g_sidecars g) -> In (f, m) (g_data g) ->
   m = code_merged (g_sidecars g) f.
 Proof.
-  intros Hg Hu Hin. destruct (group_init_spec _ _ _ _ Hg) as [Hc Hd].
+  intros Hg Hu Hin. destruct (group_init_spec _ _ _ _ _ Hg) as [Hc Hd].
   rewrite Forall_forall in Hd. specialize (Hd _ Hin). cbn [fst snd] in Hd.
   rewrite (data_sidecar_value _ _ f Hc Hu) in Hd. inversion Hd. reflexivity.
 Qed.
@@ -707,16 +707,16 @@ Lemma Forall2_eq_map {A B} (h : A -> B) l l' :
   Forall2 (fun x y => y = h x) l l' -> l' = map h l.
 Proof. intros H. induction H as [|x y l l' Hxy H IH]; [reflexivity|]. cbn [map]. rewrite Hxy, IH. reflexivity. Qed.
 
-Lemma group_sidecar_merged excl sfx t g :
-  group_init excl sfx t = Ok g ->
+Lemma group_sidecar_merged fixed excl sfx t g :
+  group_init fixed excl sfx t = Ok g ->
   g_conts g = map (fun s => (s, merge_dicts (map raw_of (own_chain (g_sidecars g) s)))) (g_sidecars g).
 Proof.
-  intros Hg. destruct (group_init_spec _ _ _ _ Hg) as [Hc _]. unfold conts_ok in Hc.
+  intros Hg. destruct (group_init_spec _ _ _ _ _ Hg) as [Hc _]. unfold conts_ok in Hc.
   apply (Forall2_eq_map (fun s => (s, merge_dicts (map raw_of (own_chain (g_sidecars g) s))))). exact Hc.
 Qed.
 
 Lemma merged_partial excl sfx t g f m :
-  group_init excl sfx t = Ok g -> In (f, m) (g_data g) ->
+  group_init false excl sfx t = Ok g -> In (f, m) (g_data g) ->
   unique_paths (g_sidecars g) -> all_fs_ok (g_sidecars g) -> data_file (g_sidecars g) f ->
   at_most_one_applicable (g_sidecars g) f ->
   ents_below_last (g_sidecars g) f ->
@@ -743,8 +743,8 @@ Proof.
   - destruct (IH Hin) as [x [Hx HR]]. exists x. split; [right; exact Hx | exact HR].
 Qed.
 
-Lemma group_files_not_excluded excl sfx t g :
-  group_init excl sfx t = Ok g ->
+Lemma group_files_not_excluded fixed excl sfx t g :
+  group_init fixed excl sfx t = Ok g ->
   (forall s, In s (g_sidecars g) -> existsb (fun n => in_names n excl) (b_dir s) = false) /\
   (forall f m, In (f, m) (g_data g) -> existsb (fun n => in_names n excl) (b_dir f) = false).
 Proof.
@@ -758,7 +758,7 @@ Proof.
     cbn [fst snd] in Hmk. apply mk_bfile_dir in Hmk as [Hd _]. rewrite Hd.
     eapply get_file_list_not_excluded. exact Hin.
   - intros f m Hf. apply mapM_Forall2 in E4. destruct (Forall2_in_right _ _ _ _ E4 Hf) as [f' [Hin' Hy]].
-    cbn beta in Hy. destruct (data_sidecar sc conts f') as [m'|e] eqn:Ed; cbn [bind] in Hy; [|discriminate].
+    cbn beta in Hy. destruct (data_sidecar fixed sc conts f') as [m'|e] eqn:Ed; cbn [bind] in Hy; [|discriminate].
     inversion Hy; subst f' m'. apply mapM_Forall2 in E3.
     destruct (Forall2_in_right _ _ _ _ E3 Hin') as [[d fl] [Hin Hmk]].
     cbn [fst snd] in Hmk. apply mk_bfile_dir in Hmk as [Hd _]. rewrite Hd.
@@ -767,17 +767,108 @@ Qed.
 
 (* ------------------------------------------------------------------ validation driver and exit status *)
 
-Lemma validate_exact (issue : Type) vs vf excl sfx t g :
-  group_init excl sfx t = Ok g -> unique_paths (g_sidecars g) ->
+Lemma validate_exact_before_fix (issue : Type) vs vf excl sfx t g :
+  group_init false excl sfx t = Ok g -> unique_paths (g_sidecars g) ->
   dataset_validate issue vs vf g =
     flat_map (fun s => vs (b_name s) (merge_dicts (map raw_of (own_chain (g_sidecars g) s)))) (g_sidecars g)
     ++ flat_map (fun fm => vf (fst fm) (code_merged (g_sidecars g) (fst fm))) (g_data g).
 Proof.
   intros Hg Hu. unfold dataset_validate, validate_sidecars, validate_datafiles. f_equal.
-  - rewrite (group_sidecar_merged _ _ _ _ Hg). rewrite flat_map_concat_map, map_map, <- flat_map_concat_map.
+  - rewrite (group_sidecar_merged _ _ _ _ _ Hg). rewrite flat_map_concat_map, map_map, <- flat_map_concat_map.
     reflexivity.
   - rewrite !flat_map_concat_map. f_equal. apply map_ext_in. intros [f m] Hin. cbn [fst snd].
     rewrite (group_data_merged _ _ _ _ _ _ Hg Hu Hin). reflexivity.
+Qed.
+
+(* ------------------------------------------------------------------ the repaired constructor (fixed = true) *)
+
+Lemma data_sidecar_fixed_value sc conts f m :
+  data_sidecar true sc conts f = Ok m -> m = spec_merged sc f.
+Proof.
+  unfold data_sidecar, spec_merged. fold (chain sc f).
+  destruct (chain sc f) as [|x l] eqn:E; cbn [is_empty]; cbv iota.
+  - intros H. inversion H. reflexivity.
+  - destruct (mk_bfile _ _ _) as [mg|e]; cbn [bind]; [|discriminate].
+    destruct (set_contents mg (x :: l)) as [d|e] eqn:Es; cbn [bind]; [|discriminate].
+    intros H. inversion H. f_equal. unfold set_contents in Es. cbn [is_empty] in Es.
+    apply load_sidecar_files_ok. exact Es.
+Qed.
+
+(* FULL STATEMENT, all trees: the sidecar attached to a data file is the fold of the per-key
+   update along the file's own chain *)
+Lemma merged_is_fold excl sfx t g f m :
+  group_init true excl sfx t = Ok g -> In (f, m) (g_data g) ->
+  m = spec_merged (g_sidecars g) f.
+Proof.
+  intros Hg Hin. destruct (group_init_spec _ _ _ _ _ Hg) as [_ Hd].
+  rewrite Forall_forall in Hd. specialize (Hd _ Hin). cbn [fst snd] in Hd.
+  apply (data_sidecar_fixed_value _ _ _ _ Hd).
+Qed.
+
+(* ... i.e., under the at-most-one-per-directory hypothesis, the top-down merge of the applicable
+   sidecars sorted by depth (however that list l is produced) *)
+Lemma merged_is_fold_applicable excl sfx t g f m l :
+  group_init true excl sfx t = Ok g -> In (f, m) (g_data g) ->
+  data_file (g_sidecars g) f -> at_most_one_applicable (g_sidecars g) f ->
+  StronglySorted ltd l -> (forall s, In s l <-> In s (g_sidecars g) /\ applicableb s f = true) ->
+  m = if is_empty l then None else Some (merge_dicts (map raw_of l)).
+Proof.
+  intros Hg Hin Hd Hone Hs Hmem. rewrite (merged_is_fold _ _ _ _ _ _ Hg Hin).
+  unfold spec_merged. rewrite (chain_unique _ _ l Hd Hone Hs Hmem). reflexivity.
+Qed.
+
+(* the merged contents of a sidecar file itself: its chain is the sidecars applicable to it
+   (it is applicable to itself) in strictly increasing depth *)
+Lemma sidecar_chain_is_applicable sc s :
+  In s sc -> all_fs_ok sc -> at_most_one sc s ->
+  (forall s', In s' (chain sc s) <->
+     In s' sc /\ (same_file s s' = true \/ applicableb s' s = true)) /\
+  StronglySorted ltd (chain sc s).
+Proof.
+  intros Hin Hfs Hone. split; [|apply chain_sorted]. intros s'. split.
+  - intros H. apply chain_sound in H as (H1 & H2 & _). split; [exact H1|].
+    rewrite (is_sidecar_for_spec s' s (Hfs s' s H1 Hin)) in H2. apply orb_true_iff in H2. exact H2.
+  - intros [H1 H2].
+    assert (Hisf : is_sidecar_for s' s = true).
+    { rewrite (is_sidecar_for_spec s' s (Hfs s' s H1 Hin)). apply orb_true_iff. exact H2. }
+    apply chain_complete; auto. destruct H2 as [H2|H2].
+    + apply same_file_spec in H2 as [Hd _]. rewrite Hd. apply is_prefixb_refl.
+    + apply applicableb_prefix. exact H2.
+Qed.
+
+(* dataset_issues for the repaired code: no side condition at all *)
+Lemma dataset_issues (issue : Type) vs vf excl sfx t g :
+  group_init true excl sfx t = Ok g ->
+  dataset_validate issue vs vf g =
+    flat_map (fun s => vs (b_name s) (merge_dicts (map raw_of (own_chain (g_sidecars g) s)))) (g_sidecars g)
+    ++ flat_map (fun fm => vf (fst fm) (spec_merged (g_sidecars g) (fst fm))) (g_data g).
+Proof.
+  intros Hg. unfold dataset_validate, validate_sidecars, validate_datafiles. f_equal.
+  - rewrite (group_sidecar_merged _ _ _ _ _ Hg). rewrite flat_map_concat_map, map_map, <- flat_map_concat_map.
+    reflexivity.
+  - rewrite !flat_map_concat_map. f_equal. apply map_ext_in. intros [f m] Hin. cbn [fst snd].
+    rewrite (merged_is_fold _ _ _ _ _ _ Hg Hin). reflexivity.
+Qed.
+
+(* a sidecar is always in its own directory's candidates, so its own chain is never empty *)
+Lemma own_chain_is_chain sc s : In s sc -> own_chain sc s = chain sc s.
+Proof.
+  intros Hin. unfold own_chain. destruct (chain sc s) as [|x l] eqn:E; [|reflexivity]. exfalso.
+  unfold chain, get_sidecars_from_path in E.
+  assert (Hex : exists y, In y (chain_aux sc s [] (b_dir s))).
+  { assert (Hg : forall rest cur, b_dir s = cur ++ rest -> exists y, In y (chain_aux sc s cur rest)).
+    { induction rest as [|c r IH]; intros cur Hd.
+      - rewrite app_nil_r in Hd. cbn [chain_aux]. unfold get_sidecar_for_obj.
+        destruct (find (fun s0 => is_sidecar_for s0 s) (dir_sidecars sc cur)) as [y|] eqn:Ef.
+        + exists y. left. reflexivity.
+        + exfalso. eapply find_none in Ef.
+          * cbn beta in Ef. unfold is_sidecar_for in Ef. rewrite same_file_refl in Ef. discriminate.
+          * unfold dir_sidecars. apply filter_In. split; [exact Hin|]. apply path_eqb_spec. exact Hd.
+      - cbn [chain_aux]. destruct (IH (cur ++ [c])) as [y Hy].
+        + rewrite Hd, <- app_assoc. reflexivity.
+        + exists y. apply in_or_app. right. exact Hy. }
+    apply (Hg (b_dir s) []). reflexivity. }
+  destruct Hex as [y Hy]. rewrite E in Hy. contradiction.
 Qed.
 
 Lemma cli_exit_iff (issue : Type) vs vf g :
@@ -814,7 +905,7 @@ Definition wit_tree : tree := Eval vm_compute in
 
 Definition empty_group : group := mkG [] [] [].
 Definition wit_group : group := Eval vm_compute in
-  match group_init excl_default sfx_events wit_tree with Ok g => g | Exn _ => empty_group end.
+  match group_init false excl_default sfx_events wit_tree with Ok g => g | Exn _ => empty_group end.
 Definition wit_file : bfile := Eval vm_compute in
   match g_data wit_group with (f, _) :: _ => f | [] => mkB [] [] None [] [] None end.
 
@@ -852,7 +943,7 @@ Qed.
    is FALSE of the code: the root sidecar's column r (key 1) is lost. *)
 Lemma merged_refuted :
   exists t g f m,
-    group_init excl_default sfx_events t = Ok g /\ In (f, m) (g_data g) /\
+    group_init false excl_default sfx_events t = Ok g /\ In (f, m) (g_data g) /\
     unique_paths (g_sidecars g) /\ all_fs_ok (g_sidecars g) /\ data_file (g_sidecars g) f /\
     at_most_one_applicable (g_sidecars g) f /\
     m <> spec_merged (g_sidecars g) f /\
@@ -879,12 +970,12 @@ Definition ok_tree : tree := Eval vm_compute in
        (FCons (s2l "code")
           (Node [(s2l "task-rest_events.json", Some [(0, 9)])] FNil) FNil)).
 Definition ok_group : group := Eval vm_compute in
-  match group_init excl_default sfx_events ok_tree with Ok g => g | Exn _ => empty_group end.
+  match group_init true excl_default sfx_events ok_tree with Ok g => g | Exn _ => empty_group end.
 Definition ok_file : bfile := Eval vm_compute in
   match g_data ok_group with (f, _) :: _ => f | [] => mkB [] [] None [] [] None end.
 
 Lemma ok_example :
-  group_init excl_default sfx_events ok_tree = Ok ok_group /\
+  group_init true excl_default sfx_events ok_tree = Ok ok_group /\
   In (ok_file, Some [(0, 2); (1, 1); (2, 1)]) (g_data ok_group) /\
   unique_paths (g_sidecars ok_group) /\ all_fs_ok (g_sidecars ok_group) /\
   data_file (g_sidecars ok_group) ok_file /\ at_most_one_applicable (g_sidecars ok_group) ok_file /\
@@ -909,4 +1000,19 @@ Proof.
   split.
   { intros s H. vm_compute in H. destruct H as [H|[H|[]]]; subst s; vm_compute; auto. }
   split; vm_compute; reflexivity.
+Qed.
+
+(* the old witness on the repaired constructor: column r (key 1) of the root sidecar is inherited *)
+Definition wit_group_fixed : group := Eval vm_compute in
+  match group_init true excl_default sfx_events wit_tree with Ok g => g | Exn _ => empty_group end.
+
+Lemma wit_fixed_example :
+  group_init true excl_default sfx_events wit_tree = Ok wit_group_fixed /\
+  g_data wit_group_fixed = [(wit_file, Some [(0, 2); (1, 1); (2, 1)])] /\
+  List.length (chain (g_sidecars wit_group_fixed) wit_file) = 2 /\
+  data_file (g_sidecars wit_group_fixed) wit_file /\
+  at_most_one_applicable (g_sidecars wit_group_fixed) wit_file.
+Proof.
+  split; [vm_compute; reflexivity|]. split; [vm_compute; reflexivity|]. split; [vm_compute; reflexivity|].
+  split; [exact wit_data_file | exact wit_at_most_one].
 Qed.
